@@ -1616,9 +1616,8 @@ def select__fold_left(self: XPathFunction, context: ta.ContextType = None) \
     if func.arity != 2:
         raise self.error('XPTY0004', "function arity must be 2")
 
-    zero = self.get_argument(context, index=1)
-
-    result = zero
+    # $zero is item()*: the empty sequence and sequences of several items are valid
+    result = list(self[1].select(context))
     for item in self[0].select(context):
         result = func(result, item, context=context)
 
@@ -1641,9 +1640,8 @@ def select__fold_right(self: XPathFunction, context: ta.ContextType = None) \
     if func.arity != 2:
         raise self.error('XPTY0004', "function arity must be 2")
 
-    zero = self.get_argument(context, index=1)
-
-    result = zero
+    # $zero is item()*: the empty sequence and sequences of several items are valid
+    result = list(self[1].select(context))
     sequence = [x for x in self[0].select(context)]
 
     for item in reversed(sequence):
